@@ -3,6 +3,7 @@
 -/
 import LMV.Lemmas.Stream
 import LMV.Lemmas.JasparRT
+import LMV.Lemmas.Jaspar16RT
 
 namespace LMV
 namespace C14
@@ -57,6 +58,30 @@ example : outcomes (Jaspar.next Jaspar.record Jaspar.growAmortized) 3
     (Jaspar.new Jaspar.growAmortized [1, 3, 2] (Jaspar.render demo))
       = demo.map (fun r => Outcome.record (Jaspar.expect r)) ++ [Outcome.done] :=
   jaspar_round_trip _ _ demo (by decide)
+
+/-- **JASPAR 2016 round trip.**  Symbol lines in any order, any non-empty duplicate-free subset of
+    the alphabet (DNA or protein: every alphabet whose tables satisfy `LettersOK`); symbols that are
+    not listed read back as zero columns. -/
+theorem jaspar16_round_trip (A : Alphabet) (hA : A.LettersOK) (grow : Nat → Nat → Nat → Nat)
+    (sched : List Nat) (rs : List Jaspar16.Src) (hwf : ∀ r ∈ rs, Jaspar16.WF A r) :
+    outcomes (Jaspar.next (Jaspar16.record A) grow) (rs.length + 1)
+        (Jaspar.new grow sched (Jaspar16.render A rs))
+      = rs.map (fun r => Outcome.record (Jaspar16.expect A r)) ++ [Outcome.done] :=
+  Jaspar16.roundTrip hA grow sched rs hwf
+
+theorem alphabets_lettersOK : dna.LettersOK ∧ protein.LettersOK := ⟨dna_lettersOK, protein_lettersOK⟩
+
+/-- permuted symbol lines (T, A, G: `C` and `N` absent), two motifs -/
+def demo16 : List Jaspar16.Src :=
+  [{ id := [0x4D], description := none, cols := [(2, [5, 6]), (0, [1, 2]), (3, [4294967295, 0])] },
+   { id := [0x58], description := some [0x79], cols := [(1, [9])] }]
+
+example : ∀ r ∈ demo16, Jaspar16.WF dna r := by decide
+
+example : outcomes (Jaspar.next (Jaspar16.record dna) Jaspar.growAmortized) 3
+    (Jaspar.new Jaspar.growAmortized [4, 1] (Jaspar16.render dna demo16))
+      = demo16.map (fun r => Outcome.record (Jaspar16.expect dna r)) ++ [Outcome.done] :=
+  jaspar16_round_trip dna dna_lettersOK _ _ demo16 (by decide)
 
 end C14
 end LMV
